@@ -743,7 +743,8 @@ def bshape_for(rng, shape):
 
 class Gen:
     def __init__(self, rng, n_stmts=8, p_inplace=0.3, p_view=0.25, p_fail=0.03, p_const=0.15, inplace=True,
-                 final_back=True, multi_back=False, allow_empty=True, f_order=True, ro_leaves=False):
+                 final_back=True, multi_back=False, allow_empty=True, f_order=True, ro_leaves=False, p_del=0.0):
+        self.p_del = p_del
         self.f_order = f_order
         self.ro_leaves = ro_leaves
         self.rng = rng
@@ -963,7 +964,7 @@ class Gen:
             self.prog.append(["aug", t, "add", ["l", [5, 4, 3, 2], [1] * 120]])
         else:
             self.prog.append(["outb", t, "add", ["t", t], ["l", [7, 5], [1] * 35], None])
-        self.next -= 1  # failing statements bind nothing
+        # (the name is not re-used: on a 0-d target some of these statements broadcast and succeed after all)
 
     def add_back(self, final=False):
         rng = self.rng
@@ -993,6 +994,10 @@ class Gen:
                         del self.shape[n]
                 else:
                     self.prog.append([k, self.pick()])
+            elif self.p_del and rng.random() < self.p_del and len(self.shape) > 1:
+                n = self.pick()  # the caller drops a handle (e.g. the middle view of a view of a view)
+                self.prog.append(["del", n])
+                del self.shape[n]
             else:
                 self.add_stmt()
         if self.final_back:
